@@ -273,8 +273,10 @@ def run_standin(suite, tier, seed, prop, open_ids):
     res = {"stand_in": suite, "label": "bounded-search(enumerated domain of standins/native.py:%s)" % suite, "violations": [],
            "known": [], "error": None}
     try:
+        env = dict(os.environ)
+        env["PYTHONPATH"] = os.path.join(loader.REPO, "src") + os.pathsep + VERIF      # the tree the VCs came from
         p = subprocess.run(["/venv/bin/python", os.path.join(VERIF, "standins", "native.py"), suite, tier, str(seed)],
-                           capture_output=True, text=True, timeout=3000, cwd=VERIF)
+                           capture_output=True, text=True, timeout=3000, cwd=VERIF, env=env)
         d = json.loads(p.stdout.strip().splitlines()[-1])
     except Exception as exc:
         res["error"] = "stand-in %s did not run: %r" % (suite, exc)
